@@ -18,7 +18,9 @@ func init() {
 				cfgs = []string{"linux", "linux-race", "darwin"}
 			}
 			for _, c := range cfgs {
-				r.use(c)
+				if r.useOpt(c) == nil {
+					continue
+				}
 				c12(r)
 			}
 		})
